@@ -43,6 +43,7 @@ AcceptKL(f, k, l) ==
     [] f = "fnx0" -> l = 0
     [] f = "nlx1" -> l # 1
     [] f = "nsa"  -> k = "a"
+    [] OTHER      -> FALSE     \* unknown names are reported by the trace specs (class unknown-filter)
 Accept(f, o) == AcceptKL(f, o.k, o.l)
 AcceptE(f, k, e) == AcceptKL(f, k, e.l)
 
